@@ -17,8 +17,10 @@ Proved here, for every machine state / dictionary / fuel:
   exactly constants; everything older is untouched and keeps its position.
 * `source_never_changes_what_was_there` — submitting a source in *compile* mode (meta blocks included, at
   every position, nested, failing or not): when it is done every variable that existed has its value, the
-  data stack that existed is still there underneath, the context is the one before. (`_partial`: that nothing
-  is left *on top* of the stack is checked by the correspondence and the oracle, not yet by a theorem.)
+  data stack that existed is still there underneath, the context is the one before; and
+  `compiling_changes_neither_stack_nor_variables`: nothing is left on top either — the data stack after `compile` IS
+  the data stack before (Proofs/SessionQuiet.lean: the token loop followed at its base level, every meta block opened
+  from there closed by the block theorems; Proofs/SessionAligned.lean).
 * `meta_block_opens`, `meta_block_steps`, `meta_block_closes_clean` — a block opened outside a meta block, as a
   whole: inside it the session stays an extension of the session at the `#(` through every step the token loop
   can take; when it closes, the session is the one at the `#(` with the code extended by one literal per result
@@ -45,6 +47,7 @@ import XehModel.Proofs.SessionUnwind
 import XehModel.Proofs.SessionBlock
 import XehModel.Proofs.SessionEval
 import XehModel.Proofs.SessionInline
+import XehModel.Proofs.SessionQuiet
 
 namespace Xeh.C11
 open Xeh Xeh.Mach Xeh.Compile Xeh.Session Xeh.Session.Sess
@@ -167,6 +170,17 @@ theorem source_never_changes_what_was_there_partial (fuel : Nat) (toks : List To
   | panic p s2 => cases h
   | unsupported u => cases h
   | timeout => cases h
+
+/-- **compiling a source executes nothing outside its meta blocks, so it changes neither the data stack nor any
+    variable**: when `compile` answers *done* — whatever meta blocks the source contains, nested, defining constants,
+    printing — the data stack is exactly the one it was given, every variable that existed has its value, the code that
+    existed is still there, the context and the saved contexts are the ones before. -/
+theorem compiling_changes_neither_stack_nor_variables (fuel : Nat) (toks : List Tok) (s s' : Sess) (idle : Idle s)
+    (h : s.buildSource fuel .compile toks = .done s') :
+    s'.m.ds = s.m.ds ∧ s'.m.heap.take s.m.heap.length = s.m.heap ∧ s'.m.code.take s.m.code.length = s.m.code ∧
+    s'.m.ctx = s.m.ctx ∧ s'.nested = s.nested := by
+  obtain ⟨h1, _, _, h4, h5, h6⟩ := source_never_changes_what_was_there_partial fuel toks s s' idle h
+  exact ⟨compile_is_quiet fuel toks s s' idle h, h1, h4, h5, h6⟩
 
 /-! ### a meta block as a whole: `#(` … `#)` is equivalent to its results written as literals
 
